@@ -132,7 +132,27 @@ fn pairs(es: &[(i64, u64)]) -> Value {
     Value::Array(es.iter().map(|(k, v)| json!([k, v])).collect())
 }
 
-/// Apply one operation to the real map (keys are ranks) and log the event.
+/// A fresh real map holding `entries` (ranks, value ids), inserted in ascending key order.  Used after a
+/// panic of the code under test, which may leave the map half-updated: the run continues from the
+/// reference contents before the failed operation.  Every call is guarded; whatever cannot be
+/// re-inserted is left out (the next event's `pre` shows the real contents anyway).
+pub fn rebuild<M: FMap>(u: &Universe, entries: &[(i64, u64)]) -> M {
+    let mut m = guarded(M::new).unwrap_or_else(|_| M::new());
+    for &(r, v) in entries {
+        if r < 0 || r as usize >= u.n {
+            continue;
+        }
+        let id = u.id_of_rank[r as usize];
+        let mut m2 = m;
+        if let Ok(Ok(_)) = guarded(|| m2.insert_opts(id, v, true)) {
+            m = m2;
+        }
+    }
+    m
+}
+
+/// Apply one operation to the real map (keys are ranks) and log the event.  A panic of the code under
+/// test is data (`"panic": true`); the map is then rebuilt from the contents before the operation.
 pub fn step<M: FMap>(u: &Universe, m: &mut M, o: &Op, sink: &mut Sink) {
     let pre = project(u, m);
     let id = if o.op == "entry_at" || o.k < 0 || o.k as usize >= u.n { 0 } else { u.id_of_rank[o.k as usize] };
@@ -176,6 +196,9 @@ pub fn step<M: FMap>(u: &Universe, m: &mut M, o: &Op, sink: &mut Sink) {
     sink.emit(json!({"tgt": M::NAME, "cap": M::CAP, "op": o.op, "k": o.k, "v": o.v, "new": o.new,
                      "pre": pairs(&pre), "post": pairs(&post), "ok": ok, "some": some, "val": val, "ekey": ekey,
                      "len": len, "panic": r.is_err()}));
+    if r.is_err() {
+        *m = rebuild::<M>(u, &pre);
+    }
 }
 
 /// model keys 1..=5 -> ranks spread over the universe; fillers = CAP - 3 other ranks (shuffled)
@@ -273,7 +296,8 @@ pub fn random_ops<M: FMap>(seed: u64, n: u64, sink: &mut Sink) {
     let mut m = M::new();
     let mut filling = true;
     for _ in 0..n {
-        let len = m.len();
+        // probing calls are calls of the code under test too: never let them take the driver down
+        let len = guarded(|| m.len()).unwrap_or(0).min(M::CAP + 1);
         if len >= M::CAP {
             filling = false;
         }
@@ -282,7 +306,8 @@ pub fn random_ops<M: FMap>(seed: u64, n: u64, sink: &mut Sink) {
         }
         let k = rng.below(u.n as u64) as i64;
         let present: Option<i64> = if len > 0 {
-            m.entry_at(rng.below(len as u64) as usize).and_then(|(kb, _)| u.rank_of_bytes.get(&kb).copied())
+            let at = rng.below(len as u64) as usize;
+            guarded(|| m.entry_at(at)).ok().flatten().and_then(|(kb, _)| u.rank_of_bytes.get(&kb).copied())
         } else {
             None
         };
@@ -296,7 +321,7 @@ pub fn random_ops<M: FMap>(seed: u64, n: u64, sink: &mut Sink) {
                 5 => Op { op: "insert".into(), k: present.unwrap_or(k), v, new: rng.chance(1, 2) },
                 6 => {
                     // the convenience insert() is insert_with_options().expect(): only legal when it cannot fail
-                    let absent = m.get(u.id_of_rank[k as usize]).is_none();
+                    let absent = guarded(|| m.get(u.id_of_rank[k as usize]).is_none()).unwrap_or(true);
                     if len >= M::CAP && absent {
                         Op { op: "insert".into(), k, v, new: false }
                     } else {
